@@ -184,6 +184,19 @@ class State:
 
     def types(self, t):
         ts = structural_type(t)
+        if ts is None and isinstance(t, tuple) and len(t) == 2 and t[0] == "global" and t[1].startswith("const:"):
+            # a module constant: the type of the display / constructor call it is bound to
+            try:
+                from rules.hexlang import current
+
+                w_ = current()
+            except ImportError:
+                w_ = None
+            lit = w_.const_literal(t) if w_ is not None else None
+            if lit is not None and lit != t:
+                ts = structural_type(lit)
+                if ts is None and is_call(lit, ("builtin:frozenset", "builtin:set", "builtin:dict", "builtin:list", "builtin:tuple")):
+                    ts = frozenset([lit[1][8:]])
         if ts is None and isinstance(t, tuple) and len(t) == 4 and t[0] == "binop" and t[1] == "+":
             tl, tr = self.types(t[2]), self.types(t[3])
             if tl is not None and tr is not None and len(tl) == 1 and tl == tr and tl <= {"str", "bytes", "list", "tuple"}:
